@@ -69,7 +69,19 @@ func (s *PFCPSession) CreatePDR(p pdr) {
 func (s *PFCPSession) UpdatePDR(p pdr) error {
 	for idx, v := range s.pdrs {
 		if v.pdrID == p.pdrID {
+			// What the UPF allocated for this PDR stays allocated until the session ends: an Update PDR
+			// does not carry the CHOOSE flags again, so keep the marks the release paths rely on.
+			// The UE IP is released by SEID; the TEID by value, so only while it is unchanged.
+			if v.allocIPFlag {
+				p.allocIPFlag = true
+			}
+
+			if v.UPAllocateFteid && p.tunnelTEID == v.tunnelTEID {
+				p.UPAllocateFteid = true
+			}
+
 			s.pdrs[idx] = p
+
 			return nil
 		}
 	}
